@@ -105,7 +105,7 @@ class Engine(EngineBase):
                 res["violations"].append(viol(m.prop, m.vclass, m.msg, m.fp, getattr(m, "narrow", None)))
             res["digest"] = world.digest()
             res["stats"]["steps"] = world.seq
-            res["stats"]["sim_ms"] = world.clock_ms - 1_000_000_000
+            res["stats"]["sim_ms"] = world.clock_ms - 1_000_000_000_000
         return res
 
     def _run(self, sc, world, res, signac):
